@@ -28,6 +28,11 @@ SRC = ["SimpleSource", "IslandSource", "ComponentSource"]
 
 
 MUTANTS = [
+    ("masked columns filled with the default value on read",
+     "AegeanTools/catalogs.py",
+     "    source_list = []\n    if table is None:",
+     "    source_list = []\n    if table is not None and table.has_masked_columns:\n"
+     "        table = table.filled()\n    if table is None:", "C18-R14"),
     ("nulls applied to every value of a database row",
      "AegeanTools/catalogs.py",
      "        data = list(map(nulls, list(r.as_list() for r in t)))",
@@ -373,6 +378,23 @@ def run(ctx):
                   node=_st[0][0] if _st else _f.node)
     ctx.floor("C18-R12", _n, 10, "functions examined for shared state")
     r13_no_value_substitution(ctx, prog, cats)
+    from ..precision import nan_replaced
+    ctx.rule("C18-R14", "NaN survives reading and writing: no function of "
+             "catalogs.py turns blank / masked entries into numbers "
+             "(Table.filled() without fill_value=nan gives 1e20, "
+             "nan_to_num, where(isnan, number, x), x[isnan] = number)")
+    n14 = 0
+    for _q, _f in sorted(prog.functions.items()):
+        if _f.module != cats.name:
+            continue
+        n14 += 1
+        rep = nan_replaced(prog, _f)
+        ctx.check("C18-R14", _f, "no NaN replaced by a number in " + _f.short,
+                  not rep, "%s: %s -- a NaN field of a source comes back as "
+                  "an ordinary number" %
+                  (rep[0][1] if rep else "", norm(rep[0][0], 60) if rep
+                   else ""), node=rep[0][0] if rep else _f.node)
+    ctx.floor("C18-R14", n14, 10, "functions of catalogs.py")
     # ---------------------------------------------------------------- R3
     ctx.rule("C18-R3", "names ⊆ attributes assigned by the __init__ chain; "
              "as_list and the writer iterate `names`")
